@@ -9,8 +9,8 @@ SPEC = {
             "stable-privacy, EUI-64 pattern, none) x exclusion (deprecated, temporary, tentative, IPv4), one address with two flag sets; "
             "random lists up to length 40 (class boundaries fbff/fc00/fdff/fe00/fe7f/fe80/febf/fec0/feff/ff00, ff:fe / ff:fd / fe:fe "
             "byte patterns, IPv4-mapped addresses of every IPv4 class, same address with other flags); random static lists incl. one equal "
-            "to the chosen address; listing failure / unprepared. config driver: every sequence of length <= 3 / <= 4 over 13 server "
-            "strings (:: in two spellings, one address in two spellings, IPv4, IPv4-mapped, garbage, a prefix), omitted list, random lists "
+            "to the chosen address; listing failure / unprepared. config driver: every sequence of length <= 3 / <= 4 over 14 server "
+            "strings (:: in two spellings, one address in two spellings, IPv4, IPv4-mapped, garbage, a prefix, a zoned address), omitted list, random lists "
             "up to 12 servers; each accepted plugin is applied to an address list. Non-trivial = at least two listed addresses / servers "
             "or a failing source; distinct by canonical input.",
     "nontrivial": lambda c: len(c.get("input", {}).get("addrs") or []) >= 2 or len(c.get("input", {}).get("servers") or []) >= 2
@@ -18,7 +18,11 @@ SPEC = {
     "trusted": ["net/netip IsPrivate / IsGlobalUnicast / IsLinkLocalUnicast / Less / Compare / As16 are modelled by Model.Wildcard.go_* and Base.IP",
                 "netip.ParseAddr lexes the server strings on the Go side (RSbad / RSnot6 / RS6 a); go-toml decodes the stanza",
                 "system.Addresser (rtnetlink address dump and flag decoding) enters the model as the input list"],
-    "assumptions": ["addresses and configured servers carry no zone",
+    "extra_targets": ["Legacy/WildcardRDNSSZone.v"],
+    "explanation": "The model mirrors parseRDNSS as repaired by fixes/rdnss-zone.diff (servers with an IPv6 zone are refused). On a tree "
+                   "without that patch the check reports VIOLATION with servers = [\"::\", \"fe80::1\", \"fe80::1%eth0\"]: both spellings are "
+                   "accepted and fe80::1 is put into the RDNSS option twice (coq/Legacy/WildcardRDNSSZone.v, legacy_parse_rdnss_refuted).",
+    "assumptions": ["addresses listed by the operating system carry no zone (configured servers with a zone are refused by the parser)",
                     "every listed system.IP has a valid Address prefix",
                     "a static server equal to the automatically chosen address is not removed (the option then lists it twice); "
                     "C14_static states only that the servers after the first are the static ones"],
